@@ -5,7 +5,12 @@ Etag, Connection, Transfer-Encoding; write(bytes|str|dict); flush (awaited or no
 redirect; raise HTTPError/Finish/ValueError) x request (GET/HEAD/POST+body, HTTP/1.0, 1.0+keep-alive,
 1.1, 1.1+close, optional If-None-Match matching the ETag the program will get).  The program is run by
 a generic RequestHandler under HTTPServer.handle_stream on the in-memory transport, with a second
-valid request pipelined behind it.
+valid request pipelined behind it.  2/5 of the cases use a SLOW transport: a generated write-credit
+schedule (cumulative grants anchored at the header end / 5 bytes before the end of the response, i.e. the
+last-chunk / the end of the response, incl. runs of 1-byte grants) is applied with the loop quiescent
+between grants; the wire is judged only after all credit was granted.  What the client finally receives
+must equal the fast-transport output (Date value aside); after a Content-Length-guard teardown it is a
+prefix of it (queued output is discarded).
 
 Oracle: the bytes written by the server are read by the strict client-side reader vlib/httpref.py and
 compared with a pure-Python model of the program (vlib/respmodel.py: which ops are rejected, final
@@ -30,9 +35,9 @@ Findings on the current tree (open, see known_findings.d/C02.json + findings_inb
   new raise Finish whose implicit finish() asserts (204/304/1xx + buffered chunk): request never answered.
 With the three proposed patches applied to a scratch copy the check is quiet with zero excluded cases.
 
-Sensitivity (quick tier, seed 1, each mutant applied alone to a scratch copy of tornado/; all 13 caught):
+Sensitivity (quick tier, seed 1, each mutant applied alone to a scratch copy of tornado/; all 14 caught):
   http1connection.write_headers: `_chunking_output` ignoring HEAD            -> C02.not_well_framed
-  http1connection._format_chunk: over-length guard removed                   -> C02.aborted_response_bytes
+  http1connection._format_chunk: over-length guard removed                   -> C02.status / C02.body_bytes_after_bodyless_status
   http1connection.finish: terminating zero-length chunk omitted              -> C02.not_well_framed
   web.finish: Content-Length from the first buffered chunk only              -> C02.closed_without_response
   web.finish: buffer kept on ETag match (304 with body)                      -> C02.status
@@ -43,6 +48,12 @@ Sensitivity (quick tier, seed 1, each mutant applied alone to a scratch copy of 
   web.set_status: reason-phrase check removed                                -> C02.etag (injected header block)
   web.write: write-after-finish allowed                                      -> C02.not_well_framed
   http1connection.write_headers: 204 allowed to be chunked                   -> C02.not_well_framed
+  http1connection.finish: write of the chunked terminator not stored in `_pending_write`, so the close of
+      a `Connection: close` response is chained to the last body chunk's write (needs a slow transport:
+      body without last-chunk, then EOF)                                     -> C02.not_well_framed
+      (found by independent mutation testing and MISSED while every case used an unlimited transport; with
+      the write-credit schedules it is caught at seeds 1, 2, 3 after 1025 / 1215 / 572 cases, shrunk to
+      Connection: close + flush() + 1-byte grants around the last-chunk)
   http1connection.write_headers: 205 added to the no-chunking and close-delimited exemptions but not to the
       body-refusing statuses (streamed 205 body undelimited, connection open)   -> C02.close_delimited_body_but_connection_stays_open
       (found by independent mutation testing and MISSED before the status pool was widened: 205 and other
@@ -60,7 +71,7 @@ RULE = (
     "Hypothesis: handler program of <=8 ops (1/4 free op lists, 1/2 structured header-ops/body-ops/terminal/"
     "trailing-ops, 1/4 template 'body-capable status (19-code pool or any 2xx-5xx except 204/304); non-empty "
     "write; flush; up to 3 more write/flush/finish') x method GET/HEAD/POST x HTTP/1.0|1.1 x Connection "
-    "absent/close/keep-alive x "
+    "absent/close/keep-alive x transport fast (3/5) or slow with a write-credit schedule of <=6 symbolic grants (2/5) x "
     "If-None-Match none/match/weak/star/list/other x request segmentation; non-trivial = flush before "
     "finish, or status 1xx/204/304, or HEAD, or HTTP/1.0; distinct = SHA-1 of the case"
 )
@@ -72,6 +83,8 @@ ASSUMPTIONS = [
     "Content-Length mismatch => HTTPOutputError and the connection is closed)",
     "default ETag is the quoted SHA-1 hex digest of the buffered body (RequestHandler.compute_etag)",
     "asserts are enabled in the interpreter that runs Tornado (finish() relies on one)",
+    "slow transport = MemoryIOStream.write_credit raised stepwise (vlib/respmodel.roundtrip_slow); the output of "
+    "a reference run with unlimited credit gives the anchors of the schedule and the differential oracle",
 ]
 TECHNIQUE = "property-based testing (Hypothesis): model-based oracle + independent strict response parser"
 LEVEL_TEXT = (
@@ -179,6 +192,19 @@ flush_status_prog = st.tuples(
     st.lists(weighted((3, write_op), (2, flush_op), (1, finish_op)), max_size=3),
 ).map(lambda t: (t[0] + t[1] + t[2] + t[3] + t[4])[:8])
 
+# Write-credit schedule of a slow transport: the request is fed while the transport accepts nothing, then
+# the total credit is raised to each resolved target (ascending) with the loop quiescent in between, then
+# it becomes unlimited.  Targets are relative to anchors taken from a reference run with a fast transport:
+# abs = 0, hdr = end of the first header block, pre_term = 5 bytes before the end of the first response
+# (start of the last-chunk of a chunked body), end1 = end of the first response; ("fine", anchor) = 1-byte
+# grants from anchor-4 to anchor+6.
+ANCHORS = ["hdr", "pre_term", "pre_term", "end1"]
+grant_s = weighted(
+    (2, st.tuples(st.just("abs"), st.integers(0, 300))),
+    (5, st.tuples(st.sampled_from(ANCHORS), st.integers(-4, 5))),
+    (3, st.tuples(st.just("fine"), st.sampled_from(ANCHORS))),
+)
+
 case_s = st.fixed_dictionaries(
     {
         "method": st.sampled_from(["GET", "GET", "HEAD", "POST"]),
@@ -188,6 +214,7 @@ case_s = st.fixed_dictionaries(
         "post_body": st.binary(max_size=12),
         "prog": weighted((2, free_prog), (4, structured_prog), (2, flush_status_prog)),
         "segments": st.one_of(st.none(), st.lists(st.integers(1, 40), min_size=1, max_size=6)),
+        "credit": weighted((3, st.none()), (2, st.lists(grant_s, min_size=1, max_size=6))),
     }
 )
 
@@ -227,6 +254,43 @@ def first_block(wire):
     return r
 
 
+def resolve_grants(credit, ref_wire, method):
+    """Symbolic schedule -> ascending list of cumulative byte counts (see grant_s)."""
+    hdr = ref_wire.find(b"\r\n\r\n")
+    hdr = hdr + 4 if hdr >= 0 else 0
+    try:
+        end1 = httpref.parse_responses(ref_wire, [method], True, max_responses=1)[0].end
+    except (httpref.RefError, IndexError):
+        end1 = len(ref_wire)
+    anchor = {"abs": 0, "hdr": hdr, "end1": end1, "pre_term": end1 - 5}
+    targets = set()
+    for g in credit:
+        if g[0] == "fine":
+            targets.update(range(anchor[g[1]] - 4, anchor[g[1]] + 7))
+        else:
+            targets.add(anchor[g[0]] + g[1])
+    return sorted(t for t in targets if t > 0)
+
+
+def same_but_date(a, ref, prefix=False):
+    """a == ref (or a is a prefix of ref) ignoring the value of Date header lines (wall clock)."""
+    if (len(a) > len(ref)) if prefix else (len(a) != len(ref)):
+        return False
+    masked = bytearray(ref[:len(a)])
+    a = bytearray(a)
+    pos = 0
+    while True:
+        i = ref.find(b"\r\nDate: ", pos)
+        if i < 0:
+            break
+        j = ref.find(b"\r\n", i + 2)
+        j = len(ref) if j < 0 else j
+        for k in range(i + 8, min(j, len(a))):
+            masked[k] = a[k] = 0x3F
+        pos = i + 2
+    return a == masked
+
+
 def second_ok(ctx, rest, closed, info):
     """`rest`: responses after the first request's response."""
     if not rest:
@@ -244,7 +308,17 @@ def run_case(ctx, case):
     exp = rm.predict(prog, method, inm)
     extra = [("If-None-Match", inm)] if inm is not None else []
     req = rm.build_request(method, version, conn, extra, case["post_body"] if method == "POST" else None)
-    wire, closed, logs, _s = httpharness.roundtrip(rm.make_app(prog), req + rm.SECOND_REQUEST, segments=case["segments"])
+    credit = case.get("credit")
+    ref_wire = ref_closed = None
+    if credit:
+        # slow transport: reference run with a fast one first (anchors for the schedule, differential oracle)
+        ref_wire, ref_closed, _l, _s = httpharness.roundtrip(rm.make_app(prog), req + rm.SECOND_REQUEST,
+                                                             segments=case["segments"])
+        grants = resolve_grants(credit, ref_wire, method)
+        wire, closed, logs, trace = rm.roundtrip_slow(rm.make_app(prog), req + rm.SECOND_REQUEST,
+                                                      segments=case["segments"], grants=grants)
+    else:
+        wire, closed, logs, _s = httpharness.roundtrip(rm.make_app(prog), req + rm.SECOND_REQUEST, segments=case["segments"])
 
     http10_ka = version == "1.0" and (conn or "").lower() == "keep-alive"
     labels = {"method_" + method, "http" + version, "outcome_" + exp.outcome}
@@ -270,6 +344,11 @@ def run_case(ctx, case):
     info = {"case": case, "wire": wire[:600], "closed": closed, "model_status": exp.status, "outcome": exp.outcome,
             "rejected": exp.rejected}
 
+    if credit:
+        labels.add("slow_transport")
+        info["grants"] = grants[:40]
+        info["trace_tail"] = trace[-4:]
+
     def done():
         ctx.note(case, labels, nontrivial)
 
@@ -294,6 +373,14 @@ def run_case(ctx, case):
     outcome = exp.outcome
     if outcome == "abort" and "bodyless_cl_guard" in exp.labels and not closed:
         outcome = "normal"  # EITHER class: 1xx/204 with a program-set Content-Length sent as is
+    if outcome == "abort" and credit:
+        # slow transport: closing the stream discards what was still queued, so the client sees a prefix
+        # (cut anywhere) of what a fast client sees
+        ctx.check(closed, "C02.content_length_mismatch_connection_left_open", info)
+        ctx.check(same_but_date(wire, ref_wire, prefix=True), "C02.aborted_response_not_a_prefix_of_fast_transport_output",
+                  dict(info, ref=ref_wire[:300]))
+        labels.add("abort_slow_transport")
+        return done()
     if outcome == "abort":
         ctx.check(closed, "C02.content_length_mismatch_connection_left_open", info)
         if wire:
@@ -337,6 +424,9 @@ def run_case(ctx, case):
             return done()
         if closed and (not wire or (b1 is not None and b1.end == len(wire))):
             labels.add("bodyless_guarded_by_close")
+            return done()
+        if credit and closed and same_but_date(wire, ref_wire, prefix=True):
+            labels.add("bodyless_guarded_by_close")  # refused write; queued header block partly discarded
             return done()
     try:
         if final_1xx:
@@ -415,6 +505,10 @@ def run_case(ctx, case):
     if not exp.rejected and "flush_after_finish" not in exp.labels:
         thrown = [r[2][:200] for r in logs.records if r[0] == "tornado.application" and r[1] >= 40]
         ctx.check(not thrown, "C02.operation_rejected_unexpectedly", dict(info, logged=thrown))
+    if credit:
+        # what the client finally receives must not depend on how fast it reads
+        ctx.check(closed == ref_closed and same_but_date(wire, ref_wire), "C02.output_depends_on_transport_speed",
+                  dict(info, ref=ref_wire[:600], ref_closed=ref_closed))
     if second_ok(ctx, rest, closed, info):
         labels.add("second_answered")
     else:
